@@ -11,6 +11,8 @@ final word) and `len < 2^32`.  The right-hand sides are the linear-scan definiti
 -/
 import SuccinctlyVerif.Proof.BPTables
 import SuccinctlyVerif.Proof.BPNavEq
+import SuccinctlyVerif.Proof.BPClose3
+import SuccinctlyVerif.Proof.BPSibling
 namespace SV.Props.C04
 open SV SV.BP SV.BPM
 
@@ -121,5 +123,186 @@ theorem first_child_eq (simd owned : Bool) (ws : List (BitVec 64)) (len : Nat) (
 
 example : (construct true false [0xB#64] 6 (.csPoppy 3)).map (fun I => I.firstChild 0) = some (some 1) := by
   decide +kernel
+
+/-! ### free functions `trees::{find_close, find_open, enclose}` (word skipping) -/
+
+/-- `trees::find_close(words, len, p)` = the matching close of the open at `p` by the left-to-right
+excess scan over the first `len` bits; `none` for `p ≥ len`, a close at `p`, or no match. Covers the
+in-word kernel, the partial first word, skipping of whole words by `word_min_excess_i32` (byte
+tables) and the masked final word, for every `|ws| = ⌈len/64⌉` with any bits above `len`;
+`len < 2^31` so that the `i32` running excess cannot wrap. (Surplus whole words beyond
+`⌈len/64⌉` are outside this domain: finding F1.) -/
+theorem find_close_eq (ws : List (BitVec 64)) (len p : Nat) (hw : ws.length = (len + 63) / 64)
+    (hlen : len < 2 ^ 31) :
+    freeFindClose ws.toArray len p = BP.findClose (bitsOf ws len) p :=
+  BPC.freeFindClose_eq ws len p hw hlen
+
+example : freeFindClose #[0xFFFFFFFFFFFFFFCB#64] 6 0 = some 5 := by decide +kernel
+example : freeFindClose #[0xFFFFFFFF#64, 0x0#64] 96 0 = some 63 := by decide +kernel
+
+/-- `trees::find_open(words, len, p)` = the matching open of the close at `p` by the right-to-left
+scan; no bound on `len` is needed beyond `|ws| = ⌈len/64⌉` (the model's excess is unbounded here:
+for `len ≥ 2^31` the code's `i32` could wrap, which the statement does not cover — see the
+`freeFindOpen` model, which uses exact integers). -/
+theorem find_open_eq (ws : List (BitVec 64)) (len p : Nat) (hw : ws.length = (len + 63) / 64) :
+    freeFindOpen ws.toArray len p = BP.findOpen (bitsOf ws len) p :=
+  BPS.freeFindOpen_eq ws len p hw
+
+example : freeFindOpen #[0xFFFFFFFFFFFFFFCB#64] 6 5 = some 0 := by decide +kernel
+
+/-- `trees::enclose(words, len, p)` = the nearest enclosing open (parent) by the right-to-left scan,
+including the skipping of whole words by `word_max_excess_rev`. -/
+theorem enclose_eq (ws : List (BitVec 64)) (len p : Nat) (hw : ws.length = (len + 63) / 64)
+    (hlen : len < 2 ^ 31) :
+    freeEnclose ws.toArray len p = BP.enclose (bitsOf ws len) p :=
+  BPS.freeEnclose_eq ws len p hw hlen
+
+example : freeEnclose #[0xFFFFFFFFFFFFFFCB#64] 6 3 = some 0 := by decide +kernel
+
+/-! ### methods built on the free functions -/
+
+/-- `BalancedParens::find_open(p)` for every constructor. -/
+theorem method_find_open_eq (simd owned : Bool) (ws : List (BitVec 64)) (len : Nat) (k : SelKind) (p : Nat)
+    (hw : ws.length = (len + 63) / 64) (hlen : len < 2 ^ 32) :
+    (construct simd owned ws len k).map (fun I => I.findOpen p) = some (BP.findOpen (bitsOf ws len) p) := by
+  obtain ⟨h1, h2⟩ := stored_ok owned ws len hw
+  rw [construct_some simd owned ws len k hlen, Option.map_some, BPS.findOpen_eq simd _ len k p h1, h2]
+
+/-- `BalancedParens::enclose(p)` and `parent(p)` for every constructor. -/
+theorem method_enclose_eq (simd owned : Bool) (ws : List (BitVec 64)) (len : Nat) (k : SelKind) (p : Nat)
+    (hw : ws.length = (len + 63) / 64) (hlen : len < 2 ^ 31) :
+    (construct simd owned ws len k).map (fun I => (I.enclose p, I.parent p)) =
+      some (BP.enclose (bitsOf ws len) p, BP.parent (bitsOf ws len) p) := by
+  obtain ⟨h1, h2⟩ := stored_ok owned ws len hw
+  rw [construct_some simd owned ws len k (by omega), Option.map_some]
+  unfold BPM.BP.parent BP.parent
+  rw [BPS.enclose_eq simd _ len k p h1 hlen, h2]
+
+example : (construct true true [0xFFFFFFFFFFFFFFCB#64] 6 .withSelect).map (fun I => I.enclose 3) = some (some 0) := by
+  decide +kernel
+
+/-! ### the range-min machinery of `find_close_from` -/
+
+/-- Core lemma of every block skip (L0 words, L1 and L2 blocks, bytes): if the running excess
+`d + 1` plus the block's minimum prefix excess stays positive, no position of the block is the
+matching close, and the scan resumes after the block with the block's total excess added. -/
+theorem block_min_sound (a b : List Bool) (i d : Nat) (h : 0 < (d : Int) + 1 + minExc a) :
+    scanClose a i d = none ∧
+    scanClose (a ++ b) i d = scanClose b (i + a.length) ((d : Int) + totExc a).toNat :=
+  ⟨BPC.block_min_sound a i d h, BPC.scanClose_skip a b i d h⟩
+
+example : scanClose ([true, false] ++ [false]) 0 0 = some 2 := by decide
+
+/-- The per-word summaries computed through the byte tables are exact and the `i8` clamp of the L0
+entries is lossless: `word_min_excess` / `_i32` (any `valid_bits ≤ 64`), `word_min_excess_unrolled`
+and `word_max_excess_rev` return (minimum prefix excess, total excess) resp. (maximum right-to-left
+running excess, total excess) of the word's bits. -/
+theorem word_summaries_exact (w : BitVec 64) (vb : Nat) (hvb : vb ≤ 64) :
+    wordMinExcess w vb = (minExc ((wordBits w).take vb), totExc ((wordBits w).take vb)) ∧
+    wordMinExcessI32 w vb = (minExc ((wordBits w).take vb), totExc ((wordBits w).take vb)) ∧
+    wordMinExcessUnrolled w = (minExc (wordBits w), totExc (wordBits w)) ∧
+    wordMaxExcessRev w = (maxSufExc (wordBits w), totExc (wordBits w)) :=
+  ⟨BPW.wordMinExcess_spec w vb hvb, BPW.wordMinExcessRaw_spec w vb hvb, BPW.wordMinExcessUnrolled_spec w,
+    BPW.wordMaxExcessRev_spec w⟩
+
+/-- PARTIAL (`next_sibling`, `subtree_size`): both equal their linear-scan definitions for every
+constructor *provided* the method `find_close(p)` of the same structure does. Missing: the
+simulation of the seven-state loop of `find_close_from` (`fcfLoop`) against `scanClose` — i.e.
+exactness of the L1/L2 folds (`foldI16`/`foldI32` without wrap for `FACTOR_L1 = FACTOR_L2 = 32`),
+the invariant "no match in [start, pos) ∧ running excess exact" across the states, and fuel
+sufficiency; `block_min_sound` and `word_summaries_exact` above are the lemmas it rests on. The
+method `find_close` itself is covered by the correspondence check and the driver's model-vs-spec
+comparison only. -/
+theorem next_sibling_subtree_size_partial (simd owned : Bool) (ws : List (BitVec 64)) (len : Nat) (k : SelKind) (p : Nat)
+    (hw : ws.length = (len + 63) / 64) (hlen : len < 2 ^ 32)
+    (hfc : ∀ I, construct simd owned ws len k = some I → I.findClose p = BP.findClose (bitsOf ws len) p) :
+    (construct simd owned ws len k).map (fun I => (I.nextSibling p, I.subtreeSize p)) =
+      some (BP.nextSibling (bitsOf ws len) p, BP.subtreeSize (bitsOf ws len) p) := by
+  obtain ⟨h1, h2⟩ := stored_ok owned ws len hw
+  have hc := construct_some simd owned ws len k hlen
+  have hfc' := hfc _ hc
+  rw [← h2] at hfc'
+  rw [hc, Option.map_some, BPS.nextSibling_of_findClose simd _ len k p h1 hfc',
+    BPS.subtreeSize_of_findClose simd _ len k p h1 hfc', h2]
+
+example : (construct false true [0xFFFFFFFFFFFFFFCB#64] 6 .noSelect).map (fun I => (I.nextSibling 1, I.subtreeSize 0)) =
+    some (some 3, some 2) := by decide +kernel
+
+/-! ### storage, stray bits, select support, build variant -/
+
+/-- Owned vs borrowed storage, stray bits above `len`, the select-support variant and its rate, and
+the scalar vs SSE4.1 index builders do not change any answer of the operations proved above: two
+structures over word vectors denoting the same first `len` bits agree on rank1, rank0, excess,
+depth, is_open, is_close, first_child, find_open, enclose and parent. (For the operations that go
+through `find_close_from` and for `select1`/`select0` this is checked by the correspondence only.) -/
+theorem storage_strays_variant_irrelevant (simd simd' owned owned' : Bool) (ws ws' : List (BitVec 64)) (len : Nat)
+    (k k' : SelKind) (p : Nat) (hw : ws.length = (len + 63) / 64) (hw' : ws'.length = (len + 63) / 64)
+    (hbits : bitsOf ws len = bitsOf ws' len) (hlen : len < 2 ^ 31) :
+    (construct simd owned ws len k).map (fun I => (I.rank1 p, I.rank0 p, I.excess p, I.depth p, I.isOpen p, I.isClose p,
+        I.firstChild p, I.findOpen p, I.enclose p)) =
+    (construct simd' owned' ws' len k').map (fun I => (I.rank1 p, I.rank0 p, I.excess p, I.depth p, I.isOpen p, I.isClose p,
+        I.firstChild p, I.findOpen p, I.enclose p)) := by
+  obtain ⟨h1, h2⟩ := stored_ok owned ws len hw
+  obtain ⟨h1', h2'⟩ := stored_ok owned' ws' len hw'
+  rw [construct_some simd owned ws len k (by omega), construct_some simd' owned' ws' len k' (by omega)]
+  simp only [Option.map_some]
+  rw [BPR.rank1_eq simd _ len k p h1 (by omega), BPR.rank1_eq simd' _ len k' p h1' (by omega),
+    BPR.rank0_eq simd _ len k p h1 (by omega), BPR.rank0_eq simd' _ len k' p h1' (by omega),
+    BPR.excess_eq simd _ len k p h1 hlen, BPR.excess_eq simd' _ len k' p h1' hlen,
+    BPR.depth_eq simd _ len k p h1 hlen, BPR.depth_eq simd' _ len k' p h1' hlen,
+    BPR.isOpen_eq simd _ len k p h1, BPR.isOpen_eq simd' _ len k' p h1',
+    BPR.isClose_eq simd _ len k p h1, BPR.isClose_eq simd' _ len k' p h1',
+    BPR.firstChild_eq simd _ len k p h1, BPR.firstChild_eq simd' _ len k' p h1',
+    BPS.findOpen_eq simd _ len k p h1, BPS.findOpen_eq simd' _ len k' p h1',
+    BPS.enclose_eq simd _ len k p h1 hlen, BPS.enclose_eq simd' _ len k' p h1' hlen, h2, h2', hbits]
+
+example : bitsOf [0xFFFFFFFFFFFFFFCB#64] 6 = bitsOf [0xB#64] 6 := by decide +kernel
+
+/-! ### operations not closed in this delivery (stated parts) -/
+
+/-- `select1` with `NoSelect` returns `None` for every `k` (documented: no select index; callers
+binary-search `rank1`). NOT PROVED in this delivery: `select1_eq` for `WithSelect` (sampled
+`SelectIndex<u32>` + `scan_select` + `select_in_word`) and `WithCsPoppy` (block samples at any rate,
+`partition_point` over `rank_l1`, the 9-bit offset walk) = `selectB true`, and `select0_eq` (binary
+search over `rank0`) = `selectB false`; they are modelled (`BP.select1`, `BP.select0`) and compared
+with the spec by the driver on every request. -/
+theorem select1_noselect_partial (simd owned : Bool) (ws : List (BitVec 64)) (len : Nat) (k : Nat) (hlen : len < 2 ^ 32) :
+    (construct simd owned ws len .noSelect).map (fun I => I.select1 k) = some none := by
+  rw [construct_some simd owned ws len _ hlen, Option.map_some]
+  rfl
+
+example : (construct false true [0xB#64] 6 .noSelect).map (fun I => I.select1 0) = some none := by decide +kernel
+
+/-- PARTIAL (method `find_close`): the guards — `p ≥ len` or a close at `p` gives `None`, as the
+linear-scan definition does. Missing: the open case, i.e. `find_close_from(p + 1, 1)` =
+`scanClose (bits.drop (p+1)) (p+1) 0` (see `next_sibling_subtree_size_partial` for what that
+needs). -/
+theorem method_find_close_guard_partial (simd owned : Bool) (ws : List (BitVec 64)) (len : Nat) (k : SelKind) (p : Nat)
+    (hw : ws.length = (len + 63) / 64) (hlen : len < 2 ^ 32)
+    (hg : ¬ BP.isOpen (bitsOf ws len) p = true) :
+    (construct simd owned ws len k).map (fun I => I.findClose p) = some (BP.findClose (bitsOf ws len) p) := by
+  obtain ⟨h1, h2⟩ := stored_ok owned ws len hw
+  rw [construct_some simd owned ws len k hlen, Option.map_some]
+  have hl := BPP.bitsOf_length ws len (by omega)
+  have hspec : BP.findClose (bitsOf ws len) p = none := by
+    unfold BP.findClose; unfold BP.isOpen at hg
+    have : ¬ (bitsOf ws len)[p]? = some true := by simpa using hg
+    simp [this]
+  rw [hspec]
+  unfold BPM.BP.findClose
+  rw [BPR.isClose_eq simd _ len k p h1, h2]
+  have hlenf : (mkBP simd (if owned then maskFinalWord ws len else ws) len k).len = len := rfl
+  rw [hlenf]
+  by_cases hp : p ≥ len
+  · simp [hp]
+  · have hp' : p < (bitsOf ws len).length := by omega
+    unfold BP.isClose
+    unfold BP.isOpen at hg
+    rw [List.getElem?_eq_getElem hp'] at hg ⊢
+    cases hb : (bitsOf ws len)[p]
+    · simp
+    · simp [hb] at hg
+
+example : ¬ BP.isOpen (bitsOf [0xB#64] 6) 2 = true := by decide +kernel
 
 end SV.Props.C04
